@@ -23,6 +23,8 @@ use altrios_core::consist::{PowerDistributionControlType, Proportional, RESGreed
 use altrios_core::meet_pass::dispatch::run_dispatch;
 use altrios_core::prelude::*;
 use altrios_core::track::*;
+use altrios_core::train::{speed_limit_train_sim_fwd, speed_limit_train_sim_rev};
+use altrios_core::traits::SerdeAPI;
 use altrios_core::consist::locomotive::loco_sim::LocomotiveSimulationVec;
 use altrios_core::uc;
 use altrios_core::validate::*;
@@ -96,6 +98,8 @@ enum Scen {
     Meet { net: Vec<Link>, trains: Vec<SpeedLimitTrainSim> },
     /// network validation (verdict; the error TEXT is compared separately)
     Validate(Vec<Link>),
+    /// the crate's own dispatch test: shipped Taconite network, `speed_limit_train_sim_fwd/rev`
+    Taconite,
 }
 
 impl Scen {
@@ -108,6 +112,7 @@ impl Scen {
             Scen::Built { .. } => "built_set_speed",
             Scen::Meet { .. } => "est_times_dispatch",
             Scen::Validate(_) => "validate",
+            Scen::Taconite => "taconite_est_times_dispatch",
         }
     }
 }
@@ -132,7 +137,62 @@ fn errs<T>(r: &Option<anyhow::Result<T>>) -> Option<String> {
     }
 }
 
+/// rebuild every std HashMap of a scenario's inputs: a new map gets a new `RandomState` (the keys of the
+/// per-thread seed are incremented for every map created), so iteration order varies between
+/// repeated executions even inside one process
+fn rehash_links(net: &mut [Link]) {
+    for l in net.iter_mut() {
+        let fresh: HashMap<TrainType, SpeedSet> = l.speed_sets.drain().collect();
+        l.speed_sets = fresh;
+    }
+}
+fn rehashed(s: &Scen) -> Scen {
+    let mut s = s.clone();
+    match &mut s {
+        Scen::Built { builder, net, .. } => {
+            let fresh: HashMap<String, u32> = builder.train_config.n_cars_by_type.drain().collect();
+            builder.train_config.n_cars_by_type = fresh;
+            rehash_links(net);
+        }
+        Scen::Meet { net, .. } => rehash_links(net),
+        Scen::Validate(net) => rehash_links(net),
+        _ => {}
+    }
+    s
+}
+
+const TACONITE: &str = "/repo/python/altrios/resources/networks/Taconite.yaml";
+static TACONITE_NET: std::sync::OnceLock<Option<Vec<Link>>> = std::sync::OnceLock::new();
+fn taconite() -> Option<&'static Vec<Link>> {
+    TACONITE_NET.get_or_init(|| guard(|| Network::from_file(TACONITE).ok().map(|n| n.0)).flatten()).as_ref()
+}
+
+fn meet(net: &[Link], trains: &[SpeedLimitTrainSim]) -> Out {
+    let r = guard(|| -> anyhow::Result<Value> {
+        let mut ets = vec![];
+        let mut cons = vec![];
+        for t in trains {
+            let (et, con) = make_est_times(t.clone(), net)?;
+            ets.push(et);
+            cons.push(con);
+        }
+        let ets_v = serde_json::to_value(&ets)?;
+        let plan = run_dispatch(net, trains, ets, false, false);
+        let plan_v = match plan {
+            Ok(p) => json!({"ok": p}),
+            Err(e) => json!({"err": format!("{:#}", e)}),
+        };
+        Ok(json!({"est_times": ets_v, "consists": cons, "dispatch": plan_v}))
+    });
+    let e = errs(&r);
+    let mut notes = vec![];
+    if let Some(Ok(v)) = &r { notes.push(format!("dispatch.{}", if v["dispatch"].get("ok").is_some() { "plan" } else { "err" })); }
+    let body = match r { Some(Ok(v)) => v, _ => Value::Null };
+    Out { canon: canon(&body), raw: raw(&body), err: e, elems: vec![], notes }
+}
+
 fn run_scen(s: &Scen, par: bool) -> Out {
+    let s = &rehashed(s);
     match s {
         Scen::Batch(sims) => {
             let mut v = LocomotiveSimulationVec(sims.clone());
@@ -189,27 +249,11 @@ fn run_scen(s: &Scen, par: bool) -> Out {
                 notes,
             }
         }
-        Scen::Meet { net, trains } => {
-            let r = guard(|| -> anyhow::Result<Value> {
-                let mut ets = vec![];
-                let mut cons = vec![];
-                for t in trains {
-                    let (et, con) = make_est_times(t.clone(), net)?;
-                    ets.push(et);
-                    cons.push(con);
-                }
-                let ets_v = serde_json::to_value(&ets)?;
-                let plan = run_dispatch(net, trains, ets, false, false);
-                let plan_v = match plan {
-                    Ok(p) => json!({"ok": p}),
-                    Err(e) => json!({"err": format!("{:#}", e)}),
-                };
-                Ok(json!({"est_times": ets_v, "consists": cons, "dispatch": plan_v}))
-            });
-            let e = errs(&r);
-            let body = match r { Some(Ok(v)) => v, _ => Value::Null };
-            Out { canon: canon(&body), raw: raw(&body), err: e, elems: vec![], notes: vec![] }
-        }
+        Scen::Meet { net, trains } => meet(net, trains),
+        Scen::Taconite => match taconite() {
+            Some(net) => meet(net, &[speed_limit_train_sim_fwd(), speed_limit_train_sim_rev()]),
+            None => Out { canon: "network file not loadable".into(), raw: "network file not loadable".into(), err: None, elems: vec![], notes: vec!["taconite.skipped_network_file_not_loadable".into()] },
+        },
         Scen::Validate(net) => {
             let r = guard(|| net.validate());
             let (verdict, text) = match &r {
@@ -387,6 +431,7 @@ fn build_scenarios(r: &mut Rng, tier: &str) -> Vec<Scen> {
         v.push(Scen::Meet { net: sc.dn.net, trains: sc.trains });
     }
     for _ in 0..(if thorough { 30 } else { 10 }) { let mut rr = r.fork(); v.push(gen_validate(&mut rr)); }
+    v.push(Scen::Taconite);
     v
 }
 
